@@ -379,6 +379,58 @@ def run_wide(res, spec_, rng):
         check_state(res, p, rng, {"origin": "wide", "width": width, "direction": direction})
 
 
+def run_loaded_then_rewired(res, spec_, rng):
+    """Graphs that are re-wired AFTER they came from a file - a file stamped with any (also an old) version, the graph at top
+    level, inside a MetaModule, or inside the MetaModule that is a Sampler's effect: fan-out, one early destination unplugged
+    (a freed out-slot in the middle), saved and loaded again."""
+    import rv.api as api
+    for s in range(8 if spec_["tier"] == "quick" else 80):
+        where = ("top", "metamodule", "sampler-effect")[s % 3]
+        inner = api.Project()
+        mods = [inner.new_module(rng.choice([api.m.Amplifier, api.m.Filter, api.m.Generator])) for _ in range(rng.randint(4, 7))]
+        inner.connect(mods[0], mods[1])
+        inner.connect(mods[1], inner.output)
+        inner.sunvox_version = rng.choice([(1, 9, 4, 0), (1, 9, 5, 0), (1, 9, 6, 0), (1, 9, 6, 1), (2, 1, 2, 1), (1, 7, 0, 0)])
+        if where == "top":
+            outer, find = inner, (lambda o: o)
+        elif where == "metamodule":
+            outer = api.Project()
+            outer.new_module(api.m.MetaModule, project=inner)
+            find = lambda o: o.modules[1].project
+        else:
+            outer = api.Project()
+            smp = outer.new_module(api.m.Sampler)
+            smp.effect = api.Synth(api.m.MetaModule(project=inner))
+            find = lambda o: o.modules[1].effect.module.project
+        case = {"origin": "loaded-then-rewired", "where": where, "stamp": list(inner.sunvox_version)}
+        res.count("states")
+        res.count("loaded_then_rewired_states")
+        try:
+            o1 = workload.load(outer.read())
+            g = find(o1)
+            src = g.modules[1]
+            dests = [m for m in g.modules[3:] if m is not None]
+            for d in dests:
+                g.connect(src, d)
+            g.connect(src, ~dests[0])            # frees an out-slot in the middle
+            if len(dests) > 2 and rng.random() < 0.5:
+                g.connect(src, ~dests[1])
+            want = tables(g)
+            o2 = workload.load(o1.read())
+            got = tables(find(o2))
+        except Exception as e:
+            res.violation(f"C08:rewired-raises:{where}:{workload.exc_key(e)}", f"{where}: {e!r}", case)
+            continue
+        res.count("consistency_evaluations")
+        b2 = list(want)
+        while b2 and b2[-1] is None:
+            b2.pop()
+        if monitors.links_consistent(find(o2)) or got != b2:
+            which = next((i for i, (x, y) in enumerate(zip(got, b2)) if x != y), None)
+            res.violation(f"C08:tables-differ:loaded-then-rewired:{where}", f"graph ({where}, file stamped {inner.sunvox_version}) re-wired after loading: module {which}: "
+                                                                            f"saved {b2[which] if which is not None else b2}, loaded {got[which] if which is not None else got}", case)
+
+
 def run_hubs(res, spec_, rng):
     """Hubs of 17..48 links whose hub is a module of ANY type (a MultiCtl has a 16-entry mapping table, a MetaModule 96
     mappings, ...: the link tables are no business of those), with slots freed in the middle and one destination re-plugged
@@ -529,6 +581,7 @@ def run_shard(spec_, res):
         run_wide(res, spec_, random.Random(spec_["seed"] + 77))
     if spec_.get("part") == "random":
         run_hubs(res, spec_, random.Random(spec_["seed"] + 78))
+        run_loaded_then_rewired(res, spec_, random.Random(spec_["seed"] + 79))
     rng = random.Random(spec_["seed"])
     monitors.install()
     if spec_["part"] == "bfs":
